@@ -96,6 +96,8 @@ enum FileFault {
     KeyThenCertificate,
     CertificateThenKey,
     LongLines,
+    /// the key in DER (binary) form instead of PEM; `as_cert`: the same file is also named as the client certificate
+    DerKey { as_cert: bool },
 }
 
 fn apply(ctx: &mut Ctx, pem: &str, cert: &str, fault: FileFault) -> Option<Vec<u8>> {
@@ -152,6 +154,7 @@ fn apply(ctx: &mut Ctx, pem: &str, cert: &str, fault: FileFault) -> Option<Vec<u
         FileFault::SwappedWithCertificate => pem.as_bytes().to_vec(), // the paths are swapped by the caller
         FileFault::KeyThenCertificate => format!("{pem}{cert}").into_bytes(),
         FileFault::CertificateThenKey => format!("{cert}{pem}").into_bytes(),
+        FileFault::DerKey { .. } => der_and_private_range(pem).0,
         FileFault::LongLines => {
             // the same base64 text in lines of another width (legal PEM allows any)
             let body: String = lines[1..lines.len() - 1].concat();
@@ -205,7 +208,7 @@ pub fn run(ctx: &mut Ctx) -> Verdict {
     let key_name = KEYS[ctx.tape.weighted(&[3, 2, 2])];
     let pem = std::fs::read_to_string(format!("{PKI}/{key_name}")).expect("key fixture");
     let cert = std::fs::read_to_string(format!("{PKI}/client.crt")).expect("client.crt");
-    let fault = match ctx.tape.weighted(&[2, 3, 3, 2, 2, 1, 2, 2, 2, 2, 2, 2, 1, 1, 1, 2, 1, 1, 2]) {
+    let fault = match ctx.tape.weighted(&[2, 3, 3, 2, 2, 1, 2, 2, 2, 2, 2, 2, 1, 1, 1, 2, 1, 1, 2, 2]) {
         0 => FileFault::Intact,
         1 => FileFault::Truncated,
         2 => FileFault::FlattenedSpaces { trailing_lf: ctx.pick(2) == 0 },
@@ -224,9 +227,11 @@ pub fn run(ctx: &mut Ctx) -> Verdict {
         15 => FileFault::SwappedWithCertificate,
         16 => FileFault::KeyThenCertificate,
         17 => FileFault::CertificateThenKey,
-        _ => FileFault::LongLines,
+        18 => FileFault::LongLines,
+        _ => FileFault::DerKey { as_cert: ctx.pick(3) != 0 },
     };
-    let verbosity: &[&str] = match ctx.tape.weighted(&[5, 2, 2, 1, 1, 1]) {
+    let verbosity: &[&str] = match ctx.tape.weighted(&[5, 2, 2, 1, 1, 1, 3]) {
+        6 => &["-vvvv"],
         0 => &["-vvv"],
         1 => &["-vv"],
         2 => &["-v"],
@@ -268,7 +273,11 @@ pub fn run(ctx: &mut Ctx) -> Verdict {
         _ => {}
     }
     let cert_path = PathBuf::from(format!("{PKI}/client.crt"));
-    let (cert_arg, key_arg): (&Path, &Path) = if fault == FileFault::SwappedWithCertificate { (&key_path, &cert_path) } else { (&cert_path, &key_path) };
+    let (cert_arg, key_arg): (&Path, &Path) = match fault {
+        FileFault::SwappedWithCertificate => (&key_path, &cert_path),
+        FileFault::DerKey { as_cert: true } => (&key_path, &key_path),
+        _ => (&cert_path, &key_path),
+    };
     let log_file = dir.join("agent.log");
     let mut cmd = Command::new(agentbin_path());
     cmd.env_clear().env("RUST_BACKTRACE", if backtrace { "1" } else { "0" }).current_dir(&dir);
